@@ -59,16 +59,28 @@ func (f *fakePullStream) Send(r *pubsubpb.StreamingPullResponse) error {
 // ends the stream.  It returns everything the stream sent and the handler's
 // final error.  Must run inside a synctest bubble on the bubble's main goroutine.
 func streamSession(srv pubsubpb.SubscriberServer, base context.Context, reqs []*pubsubpb.StreamingPullRequest) (msgs []*pubsubpb.ReceivedMessage, marks []int, herr error) {
+	var bs []func([]*pubsubpb.ReceivedMessage) *pubsubpb.StreamingPullRequest
+	for _, r := range reqs {
+		r := r
+		bs = append(bs, func([]*pubsubpb.ReceivedMessage) *pubsubpb.StreamingPullRequest { return r })
+	}
+	return streamSessionDyn(srv, base, bs)
+}
+
+// streamSessionDyn: like streamSession, but every request is built when it is
+// due, from what the stream has sent so far.
+func streamSessionDyn(srv pubsubpb.SubscriberServer, base context.Context, reqs []func([]*pubsubpb.ReceivedMessage) *pubsubpb.StreamingPullRequest) (msgs []*pubsubpb.ReceivedMessage, marks []int, herr error) {
 	ctx, cancel := context.WithCancel(base)
 	f := &fakePullStream{ctx: ctx, in: make(chan *pubsubpb.StreamingPullRequest)}
 	done := make(chan error, 1)
 	go func() { done <- srv.StreamingPull(f) }()
 	var early error
 	finished := false
-	for _, r := range reqs {
+	for _, mk := range reqs {
 		// marks[k]: how many messages the stream had sent when request k went in
 		f.mu.Lock()
 		marks = append(marks, len(f.sent))
+		r := mk(append([]*pubsubpb.ReceivedMessage(nil), f.sent...))
 		f.mu.Unlock()
 		select {
 		case f.in <- r:
